@@ -64,6 +64,25 @@ func c02Corpus() map[string]string {
 			add(fmt.Sprintf("x = a %s %s%sb", o1, p, p))
 		}
 	}
+	// operand forms other than identifiers on either side of a binary operator (one operator per precedence level),
+	// written fully parenthesised so that the intended structure is unambiguous
+	forms := []string{"a", "(b - c)", "(b | c)", "(b == c)", "(b && c)", "(if a { 1 } else { 2 })", "(for d { 1 })", "(x => x + 1)", "(func() { 1 })", "f(a)", "a[0]", "a.b", "-a", "!a", "a++", "[1, 2]", "{1: 2}", "(a, b) => a"}
+	for _, op := range []string{"||", "&&", "==", "<", "+", "-", "|", "*", "/", "<<", "&"} {
+		for _, l := range forms {
+			for _, r := range forms {
+				add(fmt.Sprintf("x = %s %s %s", l, op, r))
+			}
+		}
+	}
+	for _, l := range forms {
+		add(fmt.Sprintf("x = %s[1]", l))
+		add(fmt.Sprintf("x = %s(2)", l))
+		add(fmt.Sprintf("x = -%s", l))
+		add(fmt.Sprintf("x = %s.k", l))
+		add(fmt.Sprintf("if %s { 1 }", l))
+		add(fmt.Sprintf("x = [%s, %s]", l, l))
+		add(fmt.Sprintf("return %s", l))
+	}
 	for _, s := range []string{
 		"f(a, b)(c)[d].e", "x = [1, 2, [3, 4]][2][0]", "m = {\"a\": 1, 2: [3], \"k\": {\"z\": nil}}", "g = (a, b) => a + b", "h = a => b => a * b",
 		"func f(a, ..) { return a }", "if a { b } else if c { d } else { e }", "for i = 0:10 { if i % 2 == 0 { continue }; println(i) }",
@@ -146,7 +165,7 @@ func TestVerifBoundedRoundTrip(t *testing.T) {
 		fmt.Printf("BOUNDED-KNOWN %s %s\n", id, known[id])
 	}
 	fmt.Printf("BOUNDED evaluations=%d distinct=%d exhaustive=false bound=%q\n", evals, accepted,
-		fmt.Sprintf("%d source texts (%d accepted by the parser): examples/*.gr, tests/*.gr, every ordered pair of the 18 binary operators in three nestings, every prefix/binary combination, 35 statement shapes; normal and compact mode; structure compared by fully parenthesised compact print", len(corpus), accepted))
+		fmt.Sprintf("%d source texts (%d accepted by the parser): examples/*.gr, tests/*.gr, every ordered pair of the 18 binary operators in three nestings, every prefix/binary combination, 18 operand forms (if/for/lambda/function/call/index/literal/parenthesised) on both sides of 11 operators and in index/call/prefix/condition positions, 35 statement shapes; normal and compact mode; structure compared by fully parenthesised compact print", len(corpus), accepted))
 	if fails > 0 {
 		t.Fatalf("%d failures", fails)
 	}
